@@ -448,6 +448,78 @@ theorem deGen_next_mem (mx : Bool) (r : Rounding) (box : Box) (parents : List In
   · exact Or.inr (List.of_mem_zip hp).2
   · exact Or.inl (List.of_mem_zip hp).1
 
+/-! ### SHADE: the same laws (the generation differs from DE's only in how the mutants are made) -/
+
+theorem shadeGen_unfold (mx : Bool) (r : Rounding) (box : Box) (parents : List Ind) (arch : List Genome)
+    (dr : SDraws) (g : SGen) (h : shadeGen mx r box parents arch dr = some g) :
+    ∃ muts : List Genome, muts.length = parents.length ∧
+      Shape box parents muts.length dr.chosen dr.crs ∧
+      assignFit ((trialRows box.length dr.jrand dr.crs dr.chosen muts (parents.map (·.genome))).zip parents) dr.values
+        = some (g.trials, g.requests) ∧
+      g.next = deSelect mx parents g.trials ∧
+      g.archive = arch ++ (replaced mx parents g.trials).map (·.genome) := by
+  unfold shadeGen at h
+  split at h
+  · simp at h
+  · rename_i hs
+    have hs := sshapeOk_shape mx r box parents arch dr (by simpa using hs)
+    simp only [Option.bind_eq_some_iff, Option.map_eq_some_iff] at h
+    obtain ⟨muts, hm, q, hq, rfl⟩ := h
+    have hml : muts.length = parents.length := by
+      split at hm
+      · simp only [Option.some.injEq] at hm
+        subst hm; simp
+      · obtain ⟨hl, _⟩ := seqOpt_spec _ _ hm
+        simpa [hs.picks_len] using hl
+    exact ⟨muts, hml, ⟨hml, hs.chosen_len, hs.crs_len, hs.genome_len, hs.chosen_row⟩, by simpa using hq, rfl, rfl⟩
+
+/-- **C03 / C02, SHADE.**  One objective call per trial row that differs from its parent row, in
+row order; a row that equals its parent keeps the parent's fitness (it *is* the parent). -/
+theorem shadeGen_requests_carry (mx : Bool) (r : Rounding) (box : Box) (parents : List Ind) (arch : List Genome)
+    (dr : SDraws) (g : SGen) (h : shadeGen mx r box parents arch dr = some g) :
+    g.requests.map (·.2) = dr.values ∧ g.trials.length = parents.length ∧ g.next.length = parents.length ∧
+    ∀ i (h1 : i < g.trials.length) (h2 : i < parents.length),
+      (g.trials[i].genome = parents[i].genome → g.trials[i] = parents[i]) ∧
+      (g.trials[i].genome ≠ parents[i].genome → (g.trials[i].genome, g.trials[i].fit) ∈ g.requests) := by
+  obtain ⟨muts, hml, hs, ha, hn, _⟩ := shadeGen_unfold mx r box parents arch dr g h
+  obtain ⟨hl, hi, hv, _⟩ := assignFit_spec _ _ _ _ ha
+  have hlen : (trialRows box.length dr.jrand dr.crs dr.chosen muts (parents.map (·.genome))).length = parents.length := by
+    rw [trialRows_length] <;> simp [hs.crs_len, hs.chosen_len, hml]
+  have ht : g.trials.length = parents.length := by
+    rw [hl, List.length_zip, hlen, Nat.min_self]
+  refine ⟨hv, ht, by rw [hn]; exact C12.de_size mx parents g.trials ht, ?_⟩
+  intro i h1 h2
+  obtain ⟨hg, hc, hne⟩ := hi i h1 (by rw [← hl]; exact h1)
+  simp only [List.getElem_zip] at hg hc hne
+  constructor
+  · intro he
+    have := hc (by rw [← hg]; exact he)
+    cases ht : g.trials[i] with
+    | mk tg tf =>
+      cases hp : parents[i] with
+      | mk pg pf =>
+        rw [ht, hp] at he this
+        simp only at he this
+        rw [he, this]
+  · intro hh
+    exact hne (by rw [← hg]; exact hh)
+
+/-- **SHADE archive.**  The archive only grows by genomes of parents that were replaced in this
+generation — so every archive member has the box's dimension and lies in the box whenever the
+parents did (the hypothesis `ha` of `shadeGen_trials_inBox` is an invariant). -/
+theorem shadeGen_archive (mx : Bool) (r : Rounding) (box : Box) (parents : List Ind) (arch : List Genome)
+    (dr : SDraws) (g : SGen) (h : shadeGen mx r box parents arch dr = some g) :
+    ∀ a ∈ g.archive, a ∈ arch ∨ ∃ p ∈ parents, p.genome = a := by
+  obtain ⟨_, _, _, _, _, harch⟩ := shadeGen_unfold mx r box parents arch dr g h
+  rw [harch]
+  intro a ha
+  rcases List.mem_append.mp ha with h1 | h1
+  · exact Or.inl h1
+  · right
+    simp only [replaced, List.mem_map, List.mem_filter] at h1
+    obtain ⟨p, ⟨q, ⟨hq, _⟩, rfl⟩, rfl⟩ := h1
+    exact ⟨q.1, (List.of_mem_zip hq).1, rfl⟩
+
 /-! ### a collapsed population (known finding D19) -/
 
 theorem donorRow_same (r : Rounding) (f : Rat) (a y : Genome) (h0 : r 0 = some 0) (hfix : ∀ x ∈ a, r x = some x)
